@@ -6,13 +6,13 @@ import connfam as cf
 
 SPECS = ['Client.tla', 'ClientTrace.tla']
 INVS = ['ListFromTargets', 'ListNoDup', 'CursorInRange', 'RRDistinct', 'LatBounded', 'NoWaitAfterClose', 'WaiterOwed', 'WaitersAreWaiting', 'ErrKinds']
-PROPS = ['RouteInTargets', 'RandomInList', 'LeastTimeMinimal', 'ProbeOncePerTick', 'ClosedFailsAtOnce', 'DetectReleases', 'ProbeReleases']
+PROPS = ['RouteInTargets', 'RandomInList', 'LeastTimeMinimal', 'ProbeOncePerTick', 'ClosedFailsAtOnce', 'DetectReleases', 'ProbeReleases', 'ProbeDropsDead']
 LIVE = ['WaitersReleased', 'CloseReleases']
 TRACE_INVS = ['RouteOK', 'PolicyOK', 'WaitersOK', 'ListFromTargets', 'ListNoDup', 'CursorInRange', 'RRDistinct', 'NoWaitAfterClose', 'WaiterOwed', 'WaitersAreWaiting']
 OWN = {'ListFromTargets': 'C16', 'ListNoDup': 'C16', 'CursorInRange': 'C16', 'RouteInTargets': 'C16', 'RouteOK': 'C16',
        'RRDistinct': 'C17', 'RandomInList': 'C17', 'LeastTimeMinimal': 'C17', 'ProbeOncePerTick': 'C17', 'LatBounded': 'C17', 'PolicyOK': 'C17',
        'NoWaitAfterClose': 'C18', 'WaiterOwed': 'C18', 'WaitersAreWaiting': 'C18', 'ErrKinds': 'C18', 'ClosedFailsAtOnce': 'C18', 'WaitersOK': 'C18',
-       'WaitersReleased': 'C18', 'DetectReleases': 'C18', 'ProbeReleases': 'C18', 'CloseReleases': 'C18'}
+       'WaitersReleased': 'C18', 'DetectReleases': 'C18', 'ProbeDropsDead': 'C18', 'ProbeReleases': 'C18', 'CloseReleases': 'C18'}
 
 def consts(addrs=('a', 'b'), callers=(1, 2), policy='rr', upd=(('a', 'b'), ('b',)), init=('a', 'b'), maxupd=1, flips=1, calls=3, fb=1,
            lats=(10,), maxlat=100, director=0, dev=()):
